@@ -41,7 +41,7 @@ ASSUMPTIONS = [
 REQUIRED = {'src.cases': 300, 'src.pulled_cases': 100, 'reach.limit_iterable': 100, 'outcome.CollectionTooLargeException': 50,
             'shape.cases': 100, 'mem.cases': 100, 'mem.args_measured': 1000, 'outcome.MemoryQuotaExceededException': 20,
             'reach.limit_memory_usage': 1000, 'pr.*': 120, 'producer.proxied_calls': 20,
-            'limit.legacy_cases': 10, 'limit.yaqlized_method_cases': 5, 'limit.engine_copy_cases': 10, 'src.element_kind_cases': 100}
+            'limit.legacy_cases': 10, 'limit.view_and_option_cases': 50, 'limit.yaqlized_method_cases': 5, 'limit.engine_copy_cases': 10, 'src.element_kind_cases': 100}
 
 CASE_ALARM = 90
 MEM_CAP = [30000]
@@ -521,6 +521,32 @@ def _worlds(spec, mon, rec):
             rec.violation('limit-refusal-has-wrong-class:%s' % type(out[1]).__name__,
                           '%s with limitIterators=%d and a %d-element $big raised %s: %s instead of CollectionTooLargeException' % (
                               text, n, len(big), type(out[1]).__name__, str(out[1])[:80]), rp)
+    # (a1) dict views and nested tuples as results, under every combination of the output-conversion options
+    bigd = {'k%d' % i: i for i in range(n + 3)}
+    long_t = tuple(range(n + 2))
+    for opts in ({}, {'yaql.convertSetsToLists': True}, {'yaql.convertTuplesToLists': False},
+                 {'yaql.convertSetsToLists': True, 'yaql.convertTuplesToLists': False}):
+        oeng = yaql.YaqlFactory().create(options=dict({'yaql.limitIterators': n}, **opts))
+        for text in ('$bigd.items()', '[$bigd.items()]', 'dict(x => $bigd.items())', '$bigd.keys()', '$bigd.values()', '[$bigd.keys()]',
+                     '($bigd + dict(extra => 1)).items()', '$bigd.items().toList()', '{a => $bigd.values()}',
+                     'set($t)', '[set($t)]', 'dict(a => $t).items()', 'dict(a => $t).values()', '{$t => 1}.keys()', '[$t].toSet()',
+                     'set([$t])', '[[$t]]', '{a => [$t]}', 'set($t, 1)', 'let(f => set($t)) -> $f', 'def(g, set($t)) -> g()'):
+            ctx = mon.ctx.create_child_context()
+            ctx['bigd'] = yutils.convert_input_data(bigd)
+            ctx['t'] = long_t
+            try:
+                out = ('value', oeng(text).evaluate(context=ctx))
+            except Exception as ex:
+                out = ('exc', ex)
+            rec.count('src.cases')
+            rec.count('limit.view_and_option_cases')
+            rec.case(('sized-view', text, n, tuple(sorted(opts.items()))), nontrivial=True)
+            if out[0] == 'value':
+                bigc = oversized(out[1], n)
+                if bigc:
+                    rec.violation('oversized-collection-in-result:view-or-conversion-option', '%s with limitIterators=%d and options %r returned '
+                                  'a %s of %d elements at %s' % (text, n, opts, bigc[0], bigc[1], bigc[2]),
+                                  {'kind': 'sized', 'text': text, 'n': n})
     # (a2) the options an engine was created with are its own: the host may reuse or change the dict afterwards
     opts = {'yaql.limitIterators': n, 'yaql.memoryQuota': 3000}
     own = yaql.YaqlFactory().create(options=opts)
@@ -841,6 +867,9 @@ def mem_exprs(q, rng):
                       ('int(pow(2.0, 1000) * pow(2.0, %d))', min(k, 20))]
         for t in templates:
             e.append((t[0] % tuple(t[1:]), False))
+        # the whole expression is one long literal (strings in every quoting style, padded, and a long number)
+        e += [("'%s'" % ('x' * k), False), ('"%s"' % ('y' * k), False), ('  \n `%s` \n ' % ('z' * k), False), ('%s' % ('7' * min(k, 4000)), False),
+              ("('%s')" % ('x' * k), False), ("['%s']" % ('x' * k), False)]
     # values whose in-flight form is small but whose finalised form is big (frozen dicts, tuples at the boundary)
     n0 = max((q - 40) // 8, 1)
     for d in (-3, -1, 0, 1, 3, 40):
